@@ -1,7 +1,11 @@
 /-
   Model of `AngularGrid._get_degree_and_size` / `convert_angular_sizes_to_degrees`
   (src/grid/angular.py) over tables given as association lists in dict insertion order.
-  Hand-written; tied to the code by exhaustive correspondence (harness/props/c12.py).
+  Hand-written.  Since round 2 it is the *specification-level* model: the code itself is translated
+  from the AST into `Gen/AngularLogic.lean` (over the primitives of `Model/AngularPy.lean`, which
+  reuse `bisectLeft`, `lookup`, `keys`, `maxKey` from here), `Props/C12/Logic.lean` proves the generated
+  functions equal to `getDegreeAndSize` on all well-formed arguments, and the driver runs the
+  generated functions (exhaustive correspondence in harness/props/c12.py).
 -/
 namespace GridVerif.Bisect
 
